@@ -517,3 +517,23 @@ SPECS["C20"]["contracts"] += [f"smpl_extract.akai.keygroup:KeygroupAdapter._deco
 SPECS["C20"]["level_text"] += ("; KeygroupAdapter._decode (0, 1, 2, 4 listed zones): every keygroup parameter as stored, the zones in stored order with their sample name and velocity range, "
                                "zone i paired with entry i of the three per-zone arrays, ConstructError exactly when an array length disagrees with the zone count")
 SPECS["C20"]["not_covered"] = ["PaddedGeneral / SlicingGeneral (which slots count as non-empty, how the per-zone arrays are sliced) as contracts", "the 300-line cap (truncated listings are skipped)"]
+for _pid in ("C07", "C02"):
+    SPECS[_pid]["contracts"].append("smpl_extract.roland.s7xx.fat:FatAreaAdapter._decode#exact")
+SPECS["C07"]["level_text"] += (". Added: the Roland FAT decode is proved EXACT for the real table size (65536 sixteen-bit words): a decode that returns normally has visited every cluster "
+    "of the scan range and installed, for every cluster it visited, exactly the table's own word - an end-of-chain word as an end link, a plain word w as the link (next = w, "
+    "not end) - for any order of clusters, shared tails and heads that are not the lowest cluster (nested loop invariants: the walk is a functional path along the table; "
+    "add_to_sector_links installs a functional walk correctly). The AKAI SAT decode is proved exact on well-formed file chains for ANY table shorter than "
+    "0x4000 entries: for every set of sectors closed under 'follow the table' (in range, word neither free nor a directory flag nor a self-link, successor a member unless the "
+    "word is the end marker) every member ends up with exactly its own word, whatever else the table holds (shared tails, heads that are not the lowest sector, directory runs, "
+    "cycles and garbage elsewhere). get_path over such an exactly decoded table, started at a member, returns the sequence obtained by following the table words up to the "
+    "end marker (the induction along the chain is done by the loop invariant 'the current sector is a member') - so the statement's first half is discharged end to end: "
+    "table words -> links -> sector list -> bytes (FileStream._read)")
+SPECS["C02"]["level_text"] += ". Added: exactness of the Roland FAT decode (see C07)"
+
+_EXACT = ["smpl_extract.akai.sat:SegmentAllocationTableAdapter._decode#exact", "smpl_extract.util.fat:FileAllocationTable.get_path#along-the-table[akai]",
+          "smpl_extract.util.fat:FileAllocationTable.get_path#along-the-table[roland]"]
+SPECS["C07"]["contracts"] += _EXACT
+SPECS["C01"]["contracts"] += _EXACT[:2]
+SPECS["C02"]["contracts"] += [_EXACT[2]]
+SPECS["C01"]["level_text"] += ". Added: exactness of the AKAI SAT decode on well-formed chains and get_path along an exactly decoded table (see C07)"
+SPECS["C07"]["not_covered"] = ["AKAI directory runs (reserved-flag sectors) as an exactness contract (bounded exhaustive decode oracle)", "the construct glue that hands the words to the decoders"]
